@@ -392,7 +392,11 @@ def h_net_sample(w, st, rec):
     log0 = len(peer().log)
     npre = digest(n)
     seed = G.seed_object(w, rec.get("seed"))
-    out = w.call(lambda: obj.sample(n, random_state=seed), arm=rec.get("arm"))
+    if rec.get("posseed"):
+        w.probes["seed_passed_positionally"] += 1
+        out = w.call(lambda: obj.sample(n, seed), arm=rec.get("arm"))
+    else:
+        out = w.call(lambda: obj.sample(n, random_state=seed), arm=rec.get("arm"))
     alloc_calls = w.last_seam_calls.get("pd.DataFrame", 0)
     alloc_failed = rec.get("arm") is not None and out[0] == "exc" and isinstance(out[1], MemoryError)
     if alloc_failed:
@@ -792,6 +796,8 @@ def generate(run_seed, deep=False):
             rec = copy.deepcopy(sc.choice(sigs[-5:]))
             rec["c"] = c
             rec.pop("keep", None)
+            if g.random() < 0.25:
+                rec["posseed"] = True          # the same call, seed passed positionally
             ops.append(rec)
         elif r < 0.65 and "call.invalid" in faults:
             ops.append({"c": c, "op": "net.sample", "net": nid, "invalid": g.choice(sorted(INVALID_N)),
@@ -880,6 +886,7 @@ REQUIRED_PROBES = ["sources>=2.independence_checkable", "sources>=2.independence
                    "seeded_pair.nontrivial", "seeded_pair.seed0", "seeded_pair.numpy_integer_seed", "seeded_pair.seed_sequence_object_reused", "seeded_pair.sep.global_reseed",
                    "seeded_pair.k>=2.non_source", "peer.k>=2.non_source", "peer_fault.fit", "verbose",
                    "sample_after_scribble_input", "n:none", "n:int", "n:list", "sweep.peer_fault_positions", "sweep.alloc_fault_positions", "non_sources>=2.draw_independence_checkable",
+                   "seed_passed_positionally",
                    "peer_fault.predict.raised", "data.non_contiguous_views", "data.fortran_order", "data.dtype:<i8",
                    "data.dtype:<f4"] + \
                   ["invalid:" + k for k in sorted(INVALID_NEW)] + ["invalid:" + k for k in sorted(INVALID_N)]
